@@ -292,8 +292,15 @@ def r3_grid(ctx: Context) -> None:
     count_forms = {str(n.rat(parse_expr(t))) for t in ("self.dims", "len(parameters_precision)", "len(self._parameters_precision)", "len(parameters_bounds[0])", "len(parameters_bounds[1])",
                                                        "len(self._parameters_bounds[0])", "len(self._parameters_bounds[1])")}
     col = None
+
+    def readable(it: ast.expr) -> None:
+        for c_ in ast.walk(it):
+            if isinstance(c_, ast.Call) and any(isinstance(t, FuncInfo) for t in prog.resolve_call(init, c_)):
+                raise AnalysisError(f"{init.loc(it)}: the grid loop iterates `{src(it)[:70]}`, produced by a repository helper that could not be read in place; cannot decide R3")
+
     if comp is not None and len(comp.generators) == 1:
         gen = comp.generators[0]
+        readable(gen.iter)
         benv, counts = loop_binding(gen.target, gen.iter)
         ok_it = not gen.ifs and bool(counts) and all(str(n.rat(expand(c_, {}))) in count_forms for c_ in counts)
         ctx.check(ok_it, "R3.columns", "SearchSpace.__init__:grid-loop", "one column per parameter, in order", f"grid comprehension iterates `{src(gen.iter)[:90]}`" + (" with a filter" if gen.ifs else ""), init, comp)
@@ -301,6 +308,7 @@ def r3_grid(ctx: Context) -> None:
         ok_store = isinstance(par, (ast.Assign, ast.AnnAssign)) and src(par.targets[0] if isinstance(par, ast.Assign) else par.target) == "self._param_grid"
         ctx.check(ok_store, "R3.columns", "SearchSpace.__init__:append", "the columns, in parameter order, are the grid", "the comprehension result is not stored as the grid", init, comp)
     elif loop is not None:
+        readable(loop.iter)
         benv, counts = loop_binding(loop.target, loop.iter)
         it_ok = bool(counts) and all(str(n.rat(expand(c_, {}))) in count_forms for c_ in counts)
         ctx.check(it_ok, "R3.columns", "SearchSpace.__init__:grid-loop", "the grid loop visits every parameter index once, in order", f"grid loop is `for {src(loop.target)} in {src(loop.iter)[:80]}`", init, loop)
